@@ -17,8 +17,9 @@ func reformatDescription(input string, maxWidth int) []string {
 				linesOut = append(linesOut, pend)
 				pend = ""
 			}
-			// prevent duplicate newlines
-			if !lastWasEmpty {
+			// prevent duplicate newlines, and a paragraph break before the
+			// first word (a second pass would drop it)
+			if !lastWasEmpty && len(linesOut) > 0 {
 				linesOut = append(linesOut, "")
 			}
 			lastWasEmpty = true
